@@ -237,7 +237,10 @@ def main():
                 record(next(gen))
             except StopIteration:
                 break
-        gen.close()
+        try:
+            gen.close()
+        except BaseException as ex:     # the generator did not unwind (implementation behaviour, reported by the oracles)
+            out['close_error'] = '%s: %s' % (type(ex).__name__, ex)
         del gen
     else:
         def consumer():
